@@ -24,14 +24,14 @@ CHECKS = {
     "C04": {
         "technique": "AST def-use / lineage evaluation of the tau-thresholding pipeline, closed-term check of the tau formula, MIR def-use of builder call order",
         "level": "Decides parameter agreement of cap/noise/tau/event (K1), the pipeline order dedupe->cap->count->noise->filter->project on every non-error return (K2), strict lower-bound filter on the noisy count (K3), the public-values gate (K4), "
-                 "aggregation over the join with released keys (K5), the closed form of tau (K6) and that no builder restores the unprotected input (B1). Randomness and SQL semantics of the produced relation are not decided.",
+                 "aggregation over the join with released keys (K5), the closed form of tau (K6), that no builder restores the unprotected input (B1) and that no filter is applied to a still-empty builder, where it would be dropped (B2). Randomness and SQL semantics of the produced relation are not decided.",
         "design_ref": "DESIGN.md §3 C04",
         "note": "Trusted: Relation::{unique, limit_col_contributions} do what their names say (bodies not analysed); statrs Normal::inverse_cdf.",
     },
     "C05": {
         "technique": "AST term/arm tables of PrivacyUnitTracking and JoinBuilder::and, MIR aggregate facts for the PupRelation typestate, MIR def-use of builder call order, sibling cross-check of the protected-table predicate",
         "level": "Decides the structural necessary conditions of 'a tracked row depends only on its own unit': unit-id equality ANDed onto the original operator (Y1), tracked-side columns in published joins (Y1b), group-by-unit under Hard / refusal under Soft (Y2), "
-                 "closed PupRelation typestate (Y3), inner FK join on the right ids (Y4), JoinBuilder::and covers every ON-carrying join kind (Y5), map/set carry the unit columns (Y6), non-null output unit id for every row the join kind keeps (Y7), builder order (B1), setter/tracker agreement (T5).",
+                 "closed PupRelation typestate (Y3), inner FK join on the right ids (Y4), JoinBuilder::and covers every ON-carrying join kind (Y5), map/set carry the unit columns (Y6), non-null output unit id for every row the join kind keeps (Y7), chaining of foreign-key hops (Y8), builder order (B1), setter/tracker agreement (T5).",
         "design_ref": "DESIGN.md §3 C05",
         "note": "Not decided: 'exactly the rows of D restricted to u' over all databases.",
     },
@@ -73,7 +73,7 @@ CHECKS = {
     "C08": {
         "technique": "join of the renderer table (variant -> translator method -> SQL spelling, from type-resolved MIR switch/const facts) with the reader table (SQL name -> operator, from the syn AST); positional slot tables of the CTE renderer; oracle table of standard SQL names",
         "level": "Decides, for every operator the SQL reader can produce, that it is rendered without abort (E3) under a spelling the reader maps back to the same operator (E4), that standard SQL names have their standard meaning (E5), that every component of a relation node and every alias is rendered "
-                 "inside the node's CTE (E7, E8), that operator operands are parenthesised (E9), that GROUP BY prefers input columns over aliases (E10), that the builders keep the WHERE on every split shape (E11), that nested CASE is merged in order (E12) and that CTE lists of binary nodes are merged through one set (E13). Execution on databases, name resolution as a whole and the Map/Reduce split are not decided.",
+                 "inside the node's CTE (E7, E8), that operator operands are parenthesised (E9), that GROUP BY prefers input columns over aliases (E10), that the builders keep the WHERE on every split shape (E11), that nested CASE is merged in order (E12) that CTE lists of binary nodes are merged through one set (E13), that float literals are written with round-trip precision (E14), that the Map/Reduce split keeps the order of select items (E15) and that CTE definitions are spelled like their references (E16). Execution on databases, name resolution as a whole and the Map/Reduce split are not decided.",
         "design_ref": "DESIGN.md §3 C08",
         "note": "Trusted: sqlparser parses NAME(args) into a Function node of that name (keyword functions listed); operators map to same-named ast operators.",
     },
